@@ -755,11 +755,6 @@ func eq(a, b reflect.Value, path string) string {
 	case reflect.Float32:
 		x, y := math.Float32bits(float32FromValue(a)), math.Float32bits(float32FromValue(b))
 		if x != y {
-			fa, fb := math.Float32frombits(x), math.Float32frombits(y)
-			if fa != fa && fb != fb {
-				// latitude: float32 NaNs pass through float64 inside reflect (signalling NaNs are quieted by the CPU)
-				return ""
-			}
 			return fmt.Sprintf("%s: float32 bits %08x vs %08x", path, x, y)
 		}
 	case reflect.Float64:
